@@ -64,7 +64,7 @@ class Sim:
     def __init__(self, nserv, retry_attempts, ignore_exc, pooling):
         import pymemcache.client.hash as hashmod
         self.hashmod = hashmod
-        self.clock = VClock()
+        self.clock = VClock(1_000_000.9)          # a clock with a fractional part (truncating it must not shorten a window)
         self.net = FakeNet()
         self.net.clock = self.clock
         self.net.trace_enabled = False
@@ -156,6 +156,12 @@ class Sim:
         c0 = len(net.contacts)
         r0 = len(net.raised)
         net.begin_call(call)
+        sub = [0]
+
+        def step():
+            # every library call of a composite operation gets its own id, so that contacts can be told apart
+            sub[0] += 1
+            net.begin_call((call, sub[0]))
         exc = None
         ret = None
         uniq = b"%d" % call
@@ -165,7 +171,10 @@ class Sim:
             elif name == "set":
                 ret = hc.set(key, uniq)
             elif name == "setget":
-                ret = (hc.set(key, uniq), hc.get(key))
+                step()
+                r1 = hc.set(key, uniq)
+                step()
+                ret = (r1, hc.get(key))
             elif name == "delete":
                 ret = hc.delete(key)
             elif name == "incr":
@@ -178,6 +187,29 @@ class Sim:
                 ret = hc.set_many({k: uniq for k in allkeys})
             elif name == "delete_many":
                 ret = hc.delete_many(allkeys)
+            elif name == "setget_pair":
+                pk = (key, "pbare-%d" % (call % 7))
+                step()
+                r1 = hc.set(pk, uniq)
+                step()
+                ret = (r1, hc.get(pk))
+            elif name == "getmany_vs_get":
+                # the multi-key read and the per-key reads agree while nothing changes in between
+                c2 = len(net.contacts)
+                rot0 = sorted(hc.hasher.nodes)
+                step()
+                many = hc.get_many(allkeys)
+                singles = {}
+                for k in allkeys:
+                    step()
+                    singles[k] = hc.get(k)
+                quiet = all(ok for (_, _, ok, _) in net.contacts[c2:]) and sorted(hc.hasher.nodes) == rot0
+                ret = ("getmany", len(many))
+                if quiet and all(s_.health == "up" for s_ in self.servers.values()):
+                    want = {k: v_ for k, v_ in singles.items() if v_ is not None}
+                    if many != want:
+                        self.v("get_many-differs-from-per-key-gets",
+                               "all servers healthy: get_many -> %r but the per-key gets -> %r" % (sorted(many), sorted(want)))
             elif name in ("setmanyget", "setmanyget_pairs"):
                 # what set_many does not report as failed must be found by an immediately following get
                 if name == "setmanyget":
@@ -189,6 +221,7 @@ class Sim:
                 m2 = {n: len(s.cmdlog) for n, s in self.servers.items()}
                 c2 = len(net.contacts)
                 rot0 = sorted(hc.hasher.nodes)
+                step()
                 failed = hc.set_many(vals)
                 failed_set = set(failed)
                 rot1 = set(hc.hasher.nodes)
@@ -210,6 +243,7 @@ class Sim:
                         continue
                     m3 = {n: len(s.cmdlog) for n, s in self.servers.items()}
                     c3 = len(net.contacts)
+                    step()
                     got = hc.get(k)
                     dest = [n for n, s in self.servers.items() if len(s.cmdlog) > m3[n]]
                     bad_contact = any(not ok for (_, _, ok, _) in net.contacts[c3:])
@@ -231,8 +265,11 @@ class Sim:
             n = self.addr2name.get(addr)
             if n is None:
                 continue
-            neutral = ok and exc is not None and not isinstance(exc, OSError)
-            self.contacts[n].append((t, None if neutral else ok))
+            # an exchange that reached the server but ended in a memcached protocol error (not the client-side
+            # 'all servers down', which is raised for some other key of a multi-key call)
+            neutral = (ok and exc is not None and not isinstance(exc, OSError)
+                       and not (type(exc).__name__ == "MemcacheError"))
+            self.contacts[n].append((t, None if neutral else ok, c))      # c: the (sub-)call that made the contact
             if neutral:
                 continue
             if ok:
@@ -264,9 +301,11 @@ class Sim:
                     times[(c.verb, k)] = times.get((c.verb, k), 0) + 1
         # every key-addressed command is issued at most once per key and call (whatever the retry state)
         dup = [(vb, k, n_) for (vb, k), n_ in times.items() if n_ > 1]
-        if dup:
+        if dup and name != "getmany_vs_get":
             self.v("command-issued-twice:%s" % name, "%s sent %r (verb, key, times) in one call" % (name, dup[:3]))
-        involved = [key] if name not in ("get_many", "set_many", "delete_many", "setmanyget") else allkeys
+        involved = [key] if name not in ("get_many", "set_many", "delete_many", "setmanyget", "getmany_vs_get") else allkeys
+        if name == "setget_pair":
+            involved = []
         if name == "setmanyget_pairs":
             involved = []          # routed by server key: ownership of the bare keys is not what placement assigns
         for k in involved:
@@ -282,12 +321,16 @@ class Sim:
                     # observed eviction: the contacts before this call must justify it
                     self.out.add(o)
                     self.stats["evictions"] += 1
-                    hist = [ok for (t, ok) in self.contacts[o] if ok is not None]
-                    # contacts made by *this* call to o do not count (routing was decided before them); exchanges that
-                    # reached the server but ended in a memcached error are neither failures nor the kind of success after
-                    # which the library forgets a failure (recorded as None and skipped)
+                    rel = [(ok, cno) for (t, ok, cno) in self.contacts[o] if ok is not None]
+                    hist = [ok for ok, cno in rel]
+                    # With retries configured the eviction is decided before the evicting attempt contacts the server, from
+                    # what earlier attempts saw: the last contact (that attempt's own, failed or not) is not evidence.  With retry_attempts=0 the failing call itself evicts, so its contact counts.
+                    # Exchanges that reached the server but ended in a memcached error are neither failures nor the kind
+                    # of success after which the library forgets a failure (recorded as None and skipped).
                     tail = list(hist)
-                    if tail and tail[-1]:
+                    if self.ra > 0 and tail:
+                        tail.pop()          # the evicting attempt's own contact (the library always tries once more after evicting)
+                    elif tail and tail[-1]:
                         tail.pop()
                     nf = 0
                     while tail and not tail[-1]:
@@ -321,6 +364,17 @@ class Sim:
                        "%s raised %r which is neither the failing server's own error nor 'all servers down' (rotation %r, "
                        "failing contacted %r)" % (name, exc, rotation, sorted(contacted_failing)))
         # ---- service while a server is out: ops whose commands only reached healthy servers must work
+        if exc is None and name == "setget_pair":
+            bare = "pbare-%d" % (call % 7)
+            dest = reached.get(bare, set())
+            verbs = sorted(c.verb for n in dest for c in self.servers[n].cmdlog[marks[n]:] if bare.encode() in c.keys)
+            rot_now = set(hc.hasher.nodes)
+            setsrv = [n for n in self.servers for c in self.servers[n].cmdlog[marks[n]:] if c.verb == b"set" and bare.encode() in c.keys]
+            # the set went to a healthy server that is still in rotation: the get of the same pair must find it there
+            if len(setsrv) == 1 and setsrv[0] in rot_now and self.servers[setsrv[0]].health == "up" and not contacted_failing \
+                    and ret[0] is True and ret[1] != uniq:
+                self.v("pair-set-then-get-fails", "set(%r) went to %s (healthy, in rotation) but get returned %r; commands reached %r"
+                       % ((key, bare), setsrv[0], ret[1], sorted(dest)))
         if exc is None and name == "setget":
             dest = reached.get(key, set())
             # demanded only when both commands actually reached the same healthy server (an eviction decided by the
@@ -401,10 +455,11 @@ def random_sequence(rng, nserv):
         c = rng.random()
         if c < 0.55:
             seq.append(("op", rng.choice(["get", "set", "setget", "delete", "incr", "touch", "get_many", "set_many", "delete_many",
-                                          "setmanyget", "setmanyget_pairs", "setmanyget_pairs"]),
+                                          "setmanyget", "setmanyget_pairs", "setmanyget_pairs", "setget_pair", "setget_pair",
+                                          "getmany_vs_get"]),
                         rng.randrange(nserv), rng.randrange(2)))
         elif c < 0.8:
-            seq.append(("adv", rng.choice([1, 1, 10, 11, 11, 50, 100, 101, 201])))
+            seq.append(("adv", rng.choice([1, 1, 10, 11, 11, 50, 100, 101, 201, 0.4, 9.5, 10.2])))
         elif c < 0.92:
             seq.append(("fail", rng.randrange(nserv), rng.choice(["refused", "timeout", "reset"])))
         else:
@@ -437,10 +492,11 @@ def shard(tier, seed, idx, n):
                     for pool in (False, True):
                         for bad in range(nserv):
                             for kind in ("refused", "reset"):
-                                for opn in ("setmanyget_pairs", "setmanyget", "set_many"):
+                                for opn in ("setmanyget_pairs", "setmanyget", "set_many", "setget_pair", "getmany_vs_get", "get"):
                                     seq = [("op", opn, 0), ("fail", bad, kind)]
+                                    gap = 9.5 if (opn, kind) in (("get", "refused"), ("set_many", "reset")) else 11
                                     for step in range(6):
-                                        seq += [("op", opn, bad), ("adv", 11)]
+                                        seq += [("op", opn, bad), ("adv", gap)]
                                     seq += [("ok", bad), ("adv", 101), ("op", opn, bad), ("adv", 101), ("op", opn, bad)]
                                     path = run_sequence(res, (nserv, ra, ign, pool), seq, epilogue=False, label="targeted")
                                     states.update(path)
